@@ -27,8 +27,11 @@ F = Fraction
 # the same S(k) / D(tau, D, k) / T(alpha, phi) occurs several times; with share=True equal specs are ONE operator
 # object (as in `[exc] + [grad, diff, rf, grad, diff] * n`).  A second list ops2 (directions rotated / mirrored) is
 # run afterwards on the same objects, and simulate() is called twice on the same sequence object.
-MODES = {"1d": ("int", 1), "2d-int": ("int", 2), "3d-int": ("int", 3), "3d-float": ("float", 3)}
+MODES = {"1d": ("int", 1), "2d-int": ("int", 2), "3d-int": ("int", 3), "3d-float": ("float", 3), "3d-float-off": ("float", 3)}
 KGRID = 1250.0
+# off-grid float mode: wavenumbers are multiples of OFFSTEP, the grid cell is 10 steps wide, so pathways keep float
+# wavenumbers that are NOT grid nodes; the generator keeps distinct wavenumbers in distinct cells (no merging: C13)
+OFFGRID, OFFSTEP = 4e4, 4e3
 
 
 def gen_shift(rng, mode):
@@ -42,6 +45,8 @@ def gen_shift(rng, mode):
     while True:
         if kind == "int":
             v = [rng.choice([0, 0, 1, -1, 2, -2]) for _ in range(kdim)]
+        elif mode == "3d-float-off":
+            v = [rng.choice([0, 0, 1, -1]) * rng.choice([3, 7, 11, 12, 13, 17, 19, 23]) * OFFSTEP for _ in range(kdim)]
         else:
             v = [rng.choice([0, 0, 1, -1, 2, 3, -3, 5]) * 2 * KGRID * rng.choice([1, 1, 2, 0.5]) for _ in range(kdim)]
         if any(v):
@@ -52,8 +57,58 @@ def neg(k):
     return -k if isinstance(k, int) else [-x for x in k]
 
 
+def cells_ok(case):
+    """off-grid mode: after every shift all reachable wavenumbers (superset: every state shifted both ways) lie in
+    distinct grid cells, none near a cell boundary (np.around ties)"""
+    g, kv = case["kgrid"], kvv(case)
+    for specs in (case["ops"], case["ops2"]):
+        K = {tuple(F(0) for _ in kv)}
+        for sp in specs or []:
+            if sp["op"] != "S":
+                continue
+            d = tuple(F(x) for x in kvec(case, sp["k"]))
+            K = K | {tuple(a + b for a, b in zip(k, d)) for k in K} | {tuple(a - b for a, b in zip(k, d)) for k in K}
+            cells = {}
+            for k in K:
+                onr = [float(x) * v / g for x, v in zip(k, kv)]
+                if any(abs(abs(x - round(x)) - 0.5) < 0.05 for x in onr):
+                    return False
+                c = tuple(round(x) for x in onr)
+                if cells.setdefault(c, k) != k:
+                    return False
+    return True
+
+
 def gen_case(rng, quick=True):
-    mode = rng.choice(["1d", "1d", "2d-int", "3d-int", "3d-int", "3d-float", "3d-float"])
+    for _ in range(400):
+        case = gen_case_raw(rng, quick)
+        if case["mode"] != "3d-float-off" or cells_ok(case):
+            return case
+    raise RuntimeError("generator: no collision-free off-grid case found")
+
+
+def alpha_at(spec, idx):
+    """flip angle of a (possibly batched) pulse for one batch entry"""
+    a = spec["alpha"]
+    return a if not isinstance(a, dict) else a["values"][idx[a["axis"]] if len(idx) > a["axis"] else 0]
+
+
+def specs_at(specs, idx):
+    """the scalar sequence simulated by batch entry idx"""
+    return [dict(sp, alpha=float(alpha_at(sp, idx))) if sp["op"] == "T" else sp for sp in specs]
+
+
+def batch_shape(case, specs):
+    """shape of the state matrix' batch axes: every batched pulse carries all axes (unit where it does not vary)"""
+    b = case.get("batch")
+    used = [sp["alpha"] for sp in specs if sp["op"] == "T" and isinstance(sp["alpha"], dict)]
+    if not b or not used:
+        return (1,)
+    return tuple(max([len(a["values"]) for a in used if a["axis"] == i] + [1]) for i in range(len(b)))
+
+
+def gen_case_raw(rng, quick=True):
+    mode = rng.choice(["1d", "1d", "2d-int", "3d-int", "3d-int", "3d-float", "3d-float", "3d-float-off", "3d-float-off"])
     kind, kdim = MODES[mode]
     case = {"mode": mode, "kvalue": 1.0, "kgrid": None, "share": rng.random() < 0.75, "twice": rng.random() < 0.5,
             # how the durations reach D(...): python float, numpy scalar, 0-d float ndarray, 1-element float ndarray
@@ -64,15 +119,27 @@ def gen_case(rng, quick=True):
         # one kvalue per axis (ndarray), in every mode, possibly for more axes than the wavenumbers use (kvalue[:kdim])
         case["kvalue"] = [float(rng.choice(kvpool)) for _ in range(rng.choice([max(kdim, 2), 3]))]
     if kind == "float":
-        case["kgrid"] = KGRID
+        case["kgrid"] = OFFGRID if mode == "3d-float-off" else KGRID
+        if mode == "3d-float-off" and not isinstance(case["kvalue"], list):
+            case["kvalue"] = float(rng.choice([1, 1, 2]))
+    # batch: flip angles vary along one of two or three batch axes (unit axes included), T(alpha[:, None], phi) ...
+    case["batch"] = rng.choice([[2, 2], [2, 3], [1, 2], [2, 1], [2, 1, 2], [1, 1, 2], [2, 2, 1], [1, 2, 1]]) if rng.random() < 0.35 else None
     dirs = []
     while len(dirs) < rng.randint(1, 3):
         d = gen_shift(rng, mode)
         if d not in dirs:
             dirs.append(d)
     Dpool = [gen_D(rng, kdim) for _ in range(rng.choice([1, 1, 2]))]
-    rfs = [{"op": "T", "alpha": float(rng.choice([20, 35, 50, 70, 90, 110, 130, 155, 180])),
-            "phi": float(rng.choice([0, 15, 40, 90, 135, 200, 270]))} for _ in range(rng.randint(1, 3))]
+    ANG = [20, 35, 50, 70, 90, 110, 130, 155, 180]
+    rfs = [{"op": "T", "alpha": float(rng.choice(ANG)),
+            "phi": float(rng.choice([0, 15, 40, 90, 135, 200, 270]))} for _ in range(rng.randint(1, 3) if not case["batch"] else rng.randint(2, 3))]
+    if case["batch"]:
+        axes = list(range(len(case["batch"])))
+        rng.shuffle(axes)
+        for j, rf in enumerate(rfs):
+            if j < 2 or rng.random() < 0.5:       # the first two pulses of the pool vary along different axes
+                ax = axes[j % len(axes)]
+                rf["alpha"] = {"axis": ax, "values": [float(x) for x in rng.sample(ANG, case["batch"][ax])]}
     taus = [float(F(rng.randint(8, 640), 8)) for _ in range(2)]
     gD = [{"tau": rng.choice(taus), "D": rng.choice(Dpool)} for _ in dirs]       # the diffusion operator of each direction
     free = {"op": "D", "tau": float(F(rng.randint(8, 400), 8)), "D": rng.choice(Dpool), "k": None}
@@ -152,7 +219,12 @@ def make_op(case, spec, taucache=None):
     import epgpy as epg
     kind, kdim = MODES[case["mode"]]
     if spec["op"] == "T":
-        return epg.T(spec["alpha"], spec["phi"])
+        a = spec["alpha"]
+        if isinstance(a, dict):
+            shape = [1] * len(case["batch"])
+            shape[a["axis"]] = len(a["values"])
+            a = np.array(a["values"], dtype=float).reshape(shape)
+        return epg.T(a, spec["phi"])
     k = spec["k"]
     if k is not None:
         k = int(k) if isinstance(k, int) else np.array(k, dtype=int if kind == "int" else float)
@@ -232,10 +304,16 @@ def init_sm(case):
     return epg.StateMatrix(kvalue=kvalue_arg(case), **opts)
 
 
-def snap(sm):
+def snap(sm, full=False):
+    """states of the LAST batch entry (or, full=True, of all entries with their batch shape) and the coordinates"""
     st = np.array(sm.states)
-    st = st.reshape((-1,) + st.shape[-2:])[0]
-    co = None if sm.coords is None else np.array(sm.coords).reshape((-1,) + np.shape(sm.coords)[-2:])[0]
+    if not full:
+        st = st.reshape((-1,) + st.shape[-2:])[-1]
+    co = None if sm.coords is None else np.array(sm.coords).reshape((-1,) + np.shape(sm.coords)[-2:])
+    if co is not None:
+        if co.shape[0] != 1 and not all(np.array_equal(co[0], c) for c in co):
+            raise RuntimeError("coordinates differ between batch entries")
+        co = co[0]
     return st, co
 
 
@@ -266,12 +344,12 @@ def run_impl(case, specs, objs):
                 if not d["unobs"]:
                     bL, bT, DL, DT = rec[-1]
                     ns = pre.shape[0]
-                    d.update({"bL": bL.reshape((-1, ns) + bL.shape[-2:])[0], "bT": bT.reshape((-1, ns) + bT.shape[-2:])[0],
-                              "DL": DL.reshape(-1, ns)[0], "DT": DT.reshape(-1, ns)[0]})
+                    d.update({"bL": bL.reshape((-1, ns) + bL.shape[-2:])[-1], "bT": bT.reshape((-1, ns) + bT.shape[-2:])[-1],
+                              "DL": DL.reshape(-1, ns)[-1], "DT": DT.reshape(-1, ns)[-1]})
                 out.append(d)
             else:
                 sm = op(sm)
-        final, co = snap(sm)
+        final, co = snap(sm, full=True)
         return out, final, co
     finally:
         diffusion.diffusion_operator = orig
@@ -490,14 +568,25 @@ def pathway_oracle(case, specs):
     return out
 
 
-def oracle_disagrees(case, specs, final, coords):
+def entry_disagrees(case, specs, final, coords):
+    """one batch entry (final: nstate x 3) against the pathway sum of its own scalar sequence"""
     ref = pathway_oracle(case, specs)
     ns = final.shape[0]
     n = (ns - 1) // 2
     kdim = MODES[case["mode"]][1]
     impl = {}
     g = case["kgrid"]
-    if g:       # gridded back-end: stored coordinates are binary64 multiples of the grid step; identify states by grid index
+    off = case["mode"] == "3d-float-off"
+    exact = {}
+    if g and off:
+        # off-grid float wavenumbers: states are identified by their grid cell (distinct by construction); the stored
+        # wavenumber itself must be the pathway's wavenumber, not the grid node
+        cell = lambda k: tuple(F(round(float(x) * v / g)) for x, v in zip(k, kvv(case)))
+        exact = {cell(k): [float(x) * v for x, v in zip(k, kvv(case))] for k in ref}
+        if len(exact) != len(ref):
+            raise RuntimeError("generator produced two pathways' wavenumbers in one grid cell")
+        ref = {cell(k): a for k, a in ref.items()}
+    elif g:     # gridded back-end: stored coordinates are binary64 multiples of the grid step; identify states by grid index
         ref = {tuple(x * F(v) / F(g) for x, v in zip(k, kvv(case))): a for k, a in ref.items()}      # wavenumber = coordinate * kvalue
         if any(x.denominator != 1 for k in ref for x in k):
             raise RuntimeError("generator produced an off-grid shift")
@@ -513,7 +602,12 @@ def oracle_disagrees(case, specs, final, coords):
         elif g:
             onr = [float(x) * v / g for x, v in zip(coords[i], kvv(case))]
             key = tuple(F(round(x)) for x in onr)
-            if max(abs(x - round(x)) for x in onr) > 1e-6:
+            if off:
+                want = exact.get(key)
+                have = [float(x) * v for x, v in zip(coords[i], kvv(case))]
+                if want is not None and max(abs(a - b) for a, b in zip(have, want)) > 1e-6 * (1 + max(abs(b) for b in want)):
+                    return "the non-empty state in grid cell %s carries the wavenumber %s, its pathways have %s" % (tuple(int(x) for x in key), have, want)
+            elif max(abs(x - round(x)) for x in onr) > 1e-6:
                 return "stored coordinate %s of a non-empty state is not on the grid" % (coords[i],)
         else:
             key = tuple(F(float(x)) for x in coords[i])
@@ -532,8 +626,32 @@ def oracle_disagrees(case, specs, final, coords):
         if e > worst:
             worst, wkey = e, key
     if worst > 1e-9 * scale:
-        return "max |state - sum over pathways| = %.3g at coordinates %s%s" % (
-            worst, tuple(str(x) for x in wkey), " (several non-empty stored states share these coordinates; their sum was compared)" if wkey in dup else "")
+        return "max |state - sum over pathways| = %.3g at %s %s%s" % (
+            worst, "grid cell" if off else "coordinates", tuple(str(x) for x in wkey),
+            " (several non-empty stored states share these coordinates; their sum was compared)" if wkey in dup else "")
+    return None
+
+
+def batch_entries(case, specs, shape_found):
+    """[(index into the found array, index into the case's batch axes)] or a description of a shape mismatch"""
+    want = batch_shape(case, specs)
+    found = tuple(shape_found)
+    if int(np.prod(want)) == 1 and int(np.prod(found)) == 1:
+        return [((0,) * len(found), (0,) * len(want))]
+    if found != want:
+        return "batch shape %s, expected %s" % (found, want)
+    return [(idx, idx) for idx in np.ndindex(*want)]
+
+
+def oracle_disagrees(case, specs, final, coords):
+    """every batch entry against its own pathway model"""
+    ents = batch_entries(case, specs, final.shape[:-2])
+    if isinstance(ents, str):
+        return "state matrix has " + ents
+    for fidx, cidx in ents:
+        why = entry_disagrees(case, specs_at(specs, cidx), final[fidx], coords)
+        if why:
+            return why + (" [batch entry %s of %s]" % (cidx, batch_shape(case, specs)) if len(ents) > 1 else "")
     return None
 
 
@@ -543,19 +661,20 @@ def simulate_F0(case, objs):
     if case["kgrid"]:
         opts["kgrid"] = case["kgrid"]
     f0, z0 = epg.simulate(list(objs) + [epg.ADC], probe=["F0", "Z0"], **opts)
-    return complex(np.ravel(f0)[0]), complex(np.ravel(z0)[0])
+    return np.asarray(f0)[0], np.asarray(z0)[0]          # one ADC: drop its axis, keep the batch axes
 
 
 def simulate_disagrees(case, specs, objs, label):
-    ref = pathway_oracle(case, specs)
     zero = tuple(F(0) for _ in range(MODES[case["mode"]][1]))
-    if case["kgrid"]:
-        pass                                   # the zero key is the same in grid units
-    r0 = ref.get(zero, [0j, 0j, 0j])
     f0, z0 = simulate_F0(case, objs)
-    e = max(abs(f0 - r0[0]), abs(z0 - r0[2]))
-    if e > 1e-9 * (1 + abs(r0[0]) + abs(r0[2])):
-        return "%s: simulate() F0/Z0 differ from the pathway sum by %.3g" % (label, e)
+    ents = batch_entries(case, specs, np.shape(f0))
+    if isinstance(ents, str):
+        return "%s: simulate() returns " % label + ents
+    for fidx, cidx in ents:
+        r0 = pathway_oracle(case, specs_at(specs, cidx)).get(zero, [0j, 0j, 0j])
+        e = max(abs(complex(f0[fidx]) - r0[0]), abs(complex(z0[fidx]) - r0[2]))
+        if e > 1e-9 * (1 + abs(r0[0]) + abs(r0[2])):
+            return "%s: simulate() F0/Z0 differ from the pathway sum by %.3g%s" % (label, e, " [batch entry %s]" % (cidx,) if len(ents) > 1 else "")
     return None
 
 
@@ -585,7 +704,7 @@ def exercise(case, on_d=None):
 
 
 def sig(case):
-    return {"mode": case["mode"], "npulse": sum(1 for sp in case["ops"] if sp["op"] == "T"), "share": case["share"],
+    return {"mode": case["mode"], "npulse": sum(1 for sp in case["ops"] if sp["op"] == "T"), "share": case["share"], "batch": case.get("batch"),
             "twice": case["twice"], "tau_form": case.get("tau_form", "float"), "second_sequence": case["ops2"] is not None,
             "D": sorted({"scalar" if isinstance(sp["D"], float) else "tensor" for sp in case["ops"] if sp["op"] == "D"})}
 
@@ -639,6 +758,7 @@ def run(ctx):
         reuse["simulate_twice"] += bool(case["twice"])
         ctx.count(case, nontrivial=sig(case)["npulse"] >= 2)
         ctx.sample({"case": sig(case), "kvalue": case["kvalue"], "nops": len(case["ops"])})
+        reuse["batched"] = reuse.get("batched", 0) + bool(case.get("batch"))
         reuse["vector_kvalue"] = reuse.get("vector_kvalue", 0) + isinstance(case["kvalue"], list)
         reuse["scalar_k_on_nd_mode"] = reuse.get("scalar_k_on_nd_mode", 0) + (case["mode"] != "1d" and any(isinstance(sp.get("k"), int) for sp in case["ops"]))
         noracle += 1
